@@ -7,7 +7,7 @@ from arena import Arena
 THEOREMS = ["C10_finite_size", "C10_marking_exact", "cyclicb_complete", "cyclicb_sound", "C10_nonvacuous"]
 TARGETS = ["Props/C10.v", "Extract/C10.v"]
 NAMES = ["Aa", "Bb", "Cc", "Dd", "Ee"]
-KINDS = ["req", "opt", "arr", "map", "iun", "nul", "iob", "aio", "riu"]
+KINDS = ["req", "opt", "arr", "map", "iun", "nul", "iob", "aio", "riu", "awr"]
 HEAP = {"Vec", "Box", "HashMap", "BTreeMap", "HashSet", "BTreeSet", "std::collections::HashMap", "std::collections::BTreeMap",
         "indexmap::IndexMap", "IndexMap"}
 
@@ -29,6 +29,9 @@ def member(kind, t):
         return {"anyOf": [ref(t), {"type": "null"}]}
     if kind == "iob":
         return {"type": "object", "properties": {"x": ref(t), "k": {"type": "integer"}}}
+    if kind == "awr":
+        # a reference wrapped in a single-member allOf so that it can carry a description of its own
+        return {"description": "wrapped reference", "allOf": [ref(t)]}
     if kind == "aio":
         return {"type": "array", "items": {"type": "object", "properties": {"x": ref(t)}}}
     raise ValueError(kind)
@@ -276,7 +279,7 @@ def closure(deps):
 # ---------------------------------------------------------------- graph families
 
 def two_node_graphs():
-    ks = [None, "req", "opt", "arr", "map", "iun", "nul", "iob"]
+    ks = [None, "req", "opt", "arr", "map", "iun", "nul", "iob", "awr"]
     for aa, ab, ba, bb in itertools.product(ks, ks, ks, ks):
         edges = [[a, k, b] for (a, k, b) in ((0, aa, 0), (0, ab, 1), (1, ba, 0), (1, bb, 1)) if k]
         yield {"nodes": 2, "edges": edges}
@@ -311,6 +314,9 @@ FIXED = [
     {"nodes": 1, "edges": [[0, "map", 0]]},                                   # tree by map only: no dependency edge
     {"nodes": 2, "edges": [[0, "req", 1], [1, "opt", 0]]},
     {"nodes": 2, "edges": [[0, "riu", 1], [1, "iun", 0]]},
+    {"nodes": 1, "edges": [[0, "awr", 0]]},
+    {"nodes": 2, "edges": [[0, "awr", 1], [1, "awr", 0]]},
+    {"nodes": 3, "edges": [[0, "awr", 1], [1, "opt", 2], [2, "awr", 0]]},
     {"nodes": 3, "edges": [[0, "opt", 1], [1, "opt", 2], [2, "opt", 0]]},
     {"nodes": 3, "edges": [[0, "map", 1], [1, "req", 0], [2, "req", 0]]},
     {"nodes": 3, "edges": [[1, "opt", 2], [2, "opt", 0]], "allof": [[0, 1]]},  # cycle through an allOf parent
